@@ -88,4 +88,3 @@ func dynamicServiceDesc(name string, mode int) protoreflect.ServiceDescriptor {
 	}
 	return d.(protoreflect.ServiceDescriptor)
 }
-
